@@ -420,10 +420,13 @@ func (c *Client) recv(keepaliveQuit chan<- struct{}) {
 		switch packet := val.(type) {
 		case stanza.StreamError:
 			c.router.route(c, val)
-			c.streamError(packet.Error.Local, packet.Text)
 			c.ErrorHandler(errors.New("stream error: " + packet.Error.Local))
-			// We don't return here, because we want to wait for the stream close tag from the server, or timeout.
+			// A stream error is unrecoverable (RFC 6120 4.9.1.1): close our side, then report it. The report comes
+			// last and the loop ends here, because the event handler (e.g. a StreamManager) may already have
+			// established a new connection on the same transport, which this loop must not touch.
 			c.Disconnect()
+			c.streamError(packet.Error.Local, packet.Text)
+			return
 		// Process Stream management nonzas
 		case stanza.SMRequest:
 			answer := stanza.SMAnswer{XMLName: xml.Name{
